@@ -117,7 +117,8 @@ impl RevocationBitmap {
       // Base64 encoded zlib default compression header (0x78 0x9C): only the first two characters are
       // fixed, the third one also depends on the first byte of the deflate stream ("eJw" ..= "eJz").
       // A doubly encoded bitmap starts with "ZU" instead (the encoding of "eJ").
-      let decoded = BaseEncoding::decode(&data, Base::Base64)
+      // The outer layer was written by a data url encoder: standard alphabet with `=` padding.
+      let decoded = BaseEncoding::decode(data.trim_end_matches('='), Base::Base64)
         .map_err(|e| RevocationError::Base64DecodingError(data.into_owned(), e))?;
       data = Cow::Owned(
         String::from_utf8(decoded)
